@@ -141,7 +141,8 @@ pub fn check_wave(c: &WaveCase, rec: &mut Rec) -> Result<(), String> {
     tap.play();
     let total = nominal_total(&blocks);
     let edges = record_edges(&mut tap, &c.schedule, total.saturating_sub(3_400_000), 4_200_000, total * 3 + 30_000_000)?;
-    rec.eval();
+    // one oracle evaluation per block whose pulses are compared
+    rec.evals(blocks.len() as u64);
     check_waveform(&edges, &blocks, rec)?;
     let mut distinct_steps: Vec<u8> = c.schedule.iter().map(|s| (*s).clamp(1, 16)).collect();
     distinct_steps.sort();
